@@ -54,11 +54,11 @@ def configs(tier, n):
                 continue
             if n >= 5 and pi > 0:
                 continue
-            if n >= 6 and subst not in ("GTR", "GeneralNonSym"):
-                continue  # 945 topologies x 15625 columns each: the two most general models only
+            if n >= 6 and subst != "GTR":
+                continue  # 945 topologies x 15625 columns each (4.5 s per item): GTR only, see below
             for site in sites:
-                for tree in TREE_KINDS:
-                    for tips in TIPS:
+                for tree in (TREE_KINDS if n < 6 else TREE_KINDS[:2]):
+                    for tips in (TIPS if n < 6 else TIPS[:2]):
                         alpha = {"nuc": "NUC18" if n == 3 else ("NUC7" if n <= 5 else "NUC5"),
                                  "aa": "AA8", "codon": "CODON8", "general": "GEN6"}[kind]
                         out.append((subst, pi, site, tree, tips, alpha))
